@@ -414,7 +414,7 @@ impl Prop for C19 {
         "C19"
     }
     fn rule(&self) -> &'static str {
-        "metamorphic: one application payload (request of every protocol generator, byte-mutated requests, hostile STUN TLV lists, random bytes) sent with the transport held fixed (UDP datagram, or first segment of a handshaken TCP flow) in two contexts that differ in source/destination ports only (incl. 0, 53, 80, 111, 445, 3478, 65535), in IP version and addresses only, or in both; with no self-IP list or one that holds the contexts' server addresses (optionally more addresses of one family than of the other); a share of the contexts has source port = destination port and / or client address = server address. Oracle: answered in both contexts or in neither; same responder (independent classifier); reply source port at the same offset from the destination port; application replies equal after structural masking of exactly the listed exceptions — STUN MAPPED-ADDRESS value, successful portmapper bodies (GETPORT / GETADDR: the port / universal address; DUMP: parsed entry by entry, only port / address masked and netids reduced to their transport), DNS A RDATA and its length, HTTP Date and SMB times. Non-trivial = answered in both contexts; distinct by hash of (payload, contexts)."
+        "metamorphic: one application payload (request of every protocol generator, byte-mutated requests, hostile STUN TLV lists, random bytes) sent with the transport held fixed (UDP datagram, or first segment of a handshaken TCP flow) in two contexts that differ in source/destination ports only (incl. 0, 53, 80, 111, 445, 3478, 65535), in IP version and addresses only, or in both; with no self-IP list or one that holds the contexts' server addresses (optionally more addresses of one family than of the other); a share of the contexts has source port = destination port and / or client address = server address. Oracle: answered in both contexts or in neither; same responder (independent classifier); reply source port at the same offset from the destination port; application replies equal after structural masking of exactly the listed exceptions — STUN MAPPED-ADDRESS value, successful portmapper bodies (GETPORT / GETADDR: the port / universal address; DUMP: parsed entry by entry, only port / address masked and netids reduced to their transport), DNS A RDATA and its length, HTTP Date and SMB times. Non-trivial = answered in both contexts; distinct by hash of (payload, contexts). Shadow traffic (vf/shadow.rs): three cases in ten process, before every frame of the case, a sibling of that frame whose result is discarded — the same frame again, or one tuple element (source / destination port, source / destination address, source MAC), one payload bit or the payload length changed; TCP conversations are shadowed whole on a sibling flow validated with its own cookie; sound by the statement of C08, cases whose own flows meet a shadow tuple are excluded and counted."
     }
     fn run(&self, ctx: &mut RunCtx) {
         let n = ctx.share(ctx.tier.n(2_000_000, 16_000_000));
